@@ -81,7 +81,19 @@ def run(case):
     if route == 'tabeam_fs_class':
         out = io.StringIO(); TABEAM_FinnisSinclair_EAMTabulation(*args).write(out); return slots_tabeam_fs(out.getvalue(), labels), fns
     if route in ('excel_fs', 'excel_fs_sparse'):
-        return slots_excel_fs(Excel_FinnisSinclair_EAMTabulation(*args).workbook, labels), fns
+        tab = Excel_FinnisSinclair_EAMTabulation(*args)
+        if case.get('after_failure'):
+            # history: a density evaluation fails once while the sheets are being filled; the caller retries on the same object
+            class Once(object):
+                def __init__(self, f, k): self.f, self.k, self.n = f, k, 0
+                def __call__(self, r):
+                    self.n += 1
+                    if self.n == self.k: raise RuntimeError('transient failure')
+                    return self.f(r)
+            e0 = eams[0]; k0 = sorted(e0.electronDensityFunction)[0]; e0.electronDensityFunction[k0] = Once(e0.electronDensityFunction[k0], max(2, nr // 2))
+            try: tab.workbook
+            except RuntimeError: pass
+        return slots_excel_fs(tab.workbook, labels), fns
     raise ValueError(route)
 
 def check_case(rep, case, name):
@@ -135,7 +147,8 @@ if __name__ == '__main__':
             if c['route'].startswith('potable'): continue
             c['route'] = route
             if route == 'excel_fs_sparse' and len(c['declared']) == len(c['model']['elements']) ** 2 and len(c['declared']) > 1: c['declared'] = c['declared'][:-1]
-            rep.case(route, c); check_case(rep, c, 'route-%s-%d' % (route, j))
+            if route == 'excel_fs' and j >= 4: c['after_failure'] = True
+            rep.case(route + ('/after-failure' if c.get('after_failure') else ''), c); check_case(rep, c, 'route-%s-%d' % (route, j))
         for i in range(pl.get('n', 40)):
             c = gen_case(rng); rep.case(c['route'], c); check_case(rep, c, 'seeded-%d' % i)
     rep.finish()
